@@ -60,7 +60,7 @@ class Unit:
         self.notes = []
 
 
-DIRECTIVES = ('closure', 'fornext', 'boxiter', 'assert', 'forwhile', 'selfparam', 'props', 'requires', 'ensures', 'loop', 'rewrite', 'rewrite*', 'insert', 'emit', 'attr', 'rename',
+DIRECTIVES = ('foldinv', 'foldloops', 'closure', 'fornext', 'boxiter', 'assert', 'forwhile', 'selfparam', 'props', 'requires', 'ensures', 'loop', 'rewrite', 'rewrite*', 'insert', 'emit', 'attr', 'rename',
               'ret', 'end', 'recommends', 'decreases', 'nocanary')
 
 
@@ -151,6 +151,17 @@ def parse_unit(path):
                 cur.selfparam = rest
             elif first == 'boxiter':
                 cur.boxiter = True
+            elif first == 'foldloops':
+                cur.foldloops = True
+            elif first == 'foldinv':
+                m = re.match(r'(\d+)\s+([\w.\-]+)\s*(?:\[([^\]]*)\])?\s*:\s*(.*)$', rest, re.S)
+                if not m:
+                    err('bad foldinv')
+                props = m.group(3).replace(',', ' ').split() if m.group(3) else list(cur.props)
+                c = Clause('foldinv', f'{cur.qual}.fold{m.group(1)}.{m.group(2)}', props, '', loop=None)
+                c.fold = int(m.group(1))
+                cur.clauses.append(c)
+                pending = ((lambda c: lambda t: setattr(c, 'text', t))(c), [m.group(4)])
             elif first == 'fornext':
                 cur.fornext = getattr(cur, 'fornext', []) + [int(x) for x in rest.split()]
             elif first == 'closure':
@@ -642,6 +653,41 @@ def emit_fn(asm, unit, fs, src, canary):
             if not covered(mm.start()):
                 ed.add(mm.start(), mm.end(), ty, ('rw', 'R12'))
         log.append('R12')
+    if getattr(fs, 'foldloops', False):
+        # R13: `E.iter().fold(I, |a, x| B)` / `E.iter().try_fold(I, |a, x| B)` -> the index loop that defines them;
+        #      a trailing `X.map(|v| F)` inside B -> `match X { Some(v) => Some(F), None => None }` (definition of Option::map)
+        fold_no = -1
+        for m in src.find_code(r'(self\.\w+)\s*\.iter\(\)\s*\.(try_fold|fold)\(', bo, bc + 1):
+            fold_no += 1
+            recv, kind = m.group(1), m.group(2)
+            op_paren = m.end() - 1
+            cl_paren = src.match_close(op_paren)
+            inner = src.text[op_paren + 1:cl_paren]
+            mm = re.match(r'\s*([^,]+?)\s*,\s*\|\s*(\w+)\s*,\s*(\w+)\s*\|\s*(.*)$', inner, re.S)
+            if not mm:
+                raise Lost(f'{fs.qual}: fold closure not of the form |a, x| B')
+            init, a, x, body = mm.group(1), mm.group(2), mm.group(3), mm.group(4).strip()
+            if body.startswith('{') and body.endswith('}'):
+                body = body[1:-1].strip()
+            mp = re.match(r'(.*)\.map\(\s*\|\s*(\w+)\s*\|\s*(.*)\)\s*$', body, re.S)
+            if mp:
+                body = f'match {mp.group(1).strip()} {{ Some({mp.group(2)}) => Some({mp.group(3).strip()}), None => None }}'
+            invs = [c for c in fs.clauses if c.kind == 'foldinv' and c.fold == fold_no]
+            if kind == 'fold':
+                head = (f'{{ let verif_s = &{recv}; let mut {a} = {init}; let mut verif_i: usize = 0;\n'
+                        f'        while verif_i < verif_s.len()\n')
+                tail = f'        {{ let {x} = &verif_s[verif_i]; {a} = {body}; verif_i += 1; }}\n        {a} }}'
+            else:
+                head = (f'{{ let verif_s = &{recv}; let mut verif_acc = Some({init}); let mut verif_i: usize = 0;\n'
+                        f'        while verif_i < verif_s.len() && verif_acc.is_some()\n')
+                tail = (f'        {{ let {a} = verif_acc.unwrap(); let {x} = &verif_s[verif_i]; verif_acc = {body}; verif_i += 1; }}\n        verif_acc }}')
+            ed.add(m.start(), cl_paren + 1, head, ('rw', 'R13'))
+            ed.edits.append((cl_paren + 1, cl_paren + 1, '            invariant\n', ('gen',)))
+            for c in invs:
+                asm.clauses[c.cid] = c
+                ed.edits.append((cl_paren + 1, cl_paren + 1, f'                {c.text},\n', ('clause', c.cid)))
+            ed.edits.append((cl_paren + 1, cl_paren + 1, '            decreases verif_s.len() - verif_i,\n' + tail, ('rw', 'R13')))
+            log.append('R13')
     ed.soft = True
     global_rewrites(src, ed, fn_kw, bc + 1, log, item_ty)
     if getattr(fs, 'boxiter', False):
@@ -744,7 +790,13 @@ def emit_fn(asm, unit, fs, src, canary):
             raise Lost(f'{fs.qual}: loop {n} is not a `for` without `continue` (R11b not applicable)')
         m1 = re.match(r'for\s+(\w+)\s+in\s+(.+?)\.\.(?!=)(.+?)\s*$', hdr, re.S)
         m2 = re.match(r'for\s+\(\s*(\w+)\s*,\s*(\w+)\s*\)\s+in\s+(.+?)\.iter\(\)\.enumerate\(\)\s*$', hdr, re.S)
-        if m2:
+        m3 = re.match(r'for\s+(\w+)\s+in\s+&\s*([\w.]+)\s*$', hdr, re.S)
+        if m3 and not m1:
+            x, v = m3.group(1), m3.group(2)
+            ed.add(kw_start, lbo, f'let mut verif_i_{x}: usize = 0; let verif_seq_{x} = &{v}; while verif_i_{x} < verif_seq_{x}.len() ', ('rw', 'R11b'))
+            ed.edits.append((lbo + 1, lbo + 1, f' let {x} = &verif_seq_{x}[verif_i_{x}];', ('rw', 'R11b')))
+            ed.edits.append((lbc, lbc, f' verif_i_{x} += 1; ', ('rw', 'R11b')))
+        elif m2:
             k, x, v = m2.group(1), m2.group(2), m2.group(3).strip()
             ed.add(kw_start, lbo, f'let mut {k} = 0; let verif_seq_{k} = {v}; while {k} < verif_seq_{k}.len() ', ('rw', 'R11b'))
             ed.edits.append((lbo + 1, lbo + 1, f' let {x} = &verif_seq_{k}[{k}];', ('rw', 'R11b')))
